@@ -51,6 +51,14 @@ def corruptions(rng, S, n_each=2):
         out.append(("strand-complex-unbalanced", doc(base + [f"structure SC = {s1} + {s1} : {')' + '.' * (n1 - 1)}+{'(' + '.' * (n1 - 1)}"])))
         out.append(("strand-complex-unbalanced2", doc(base + [f"structure SC = {s1} + {s1} : {'(' + '.' * (n1 - 1)}+{'.' * n1}"])))
         out.append(("strand-complex-undeclared", doc(base + [f"structure SC = nostrand : ."])))
+        out.append(("strand-complex-no-strands", doc(base + ["structure SC = + : +"])))
+        for L in (1, 2, n1, 2 * n1, 2 * n1 + 2, 3 * n1 + 4):
+            st = "".join(rng.choice(".()+") for _ in range(L)) if rng.random() < 0.5 else "." * L
+            out.append(("strand-complex-2-strands-length-%s" % ("short" if L < 2 * n1 + 1 else "long" if L > 2 * n1 + 1 else "ok"),
+                        doc(base + [f"structure SC = {s1} + {s1} : {st}"])))
+        out.append(("strand-complex-3-strands-short", doc(base + [f"structure SC = {s1} + {s1} + {s1} : {'.' * n1}+."])))
+        out.append(("strand-complex-trailing-plus", doc(base + [f"structure SC = {s1} + : {'.' * n1}+"])))
+        out.append(("strand-complex-complex-keyword", doc(base + [f"complex SC :", f"{s1} {s1}", f"{'.' * n1} + {'.' * n1}"])))
         out.append(("composite-in-kernel", doc(base + [f"KC = {s1}( ) {s1}*"])))
         out.append(("strand-redeclared", doc(base + [f"strand {s1} = {doms[0]} {doms[0]} {doms[0]} {doms[0]}"])))
     if doms:
@@ -58,6 +66,9 @@ def corruptions(rng, S, n_each=2):
         out.append(("degenerate-empty-strand", doc(base + [f"E1 = {d} +"])))
         out.append(("degenerate-leading-plus", doc(base + [f"E2 = + {d}"])))
         out.append(("degenerate-double-plus", doc(base + [f"E3 = {d} + + {d}"])))
+        out.append(("degenerate-only-plus", doc(base + ["E3b = +"])))
+        out.append(("degenerate-only-pluses", doc(base + ["E3c = + +"])))
+        out.append(("degenerate-paired-nothing", doc(base + [f"E3d = {d}( + )"])))
         out.append(("undeclared-domain", doc(base + [f"E4 = {d} nodomain"])))
         out.append(("undeclared-domain-paired", doc(base + [f"E5 = nodomain( {d} )"])))
         out.append(("caret-domain", doc(base + [f"E6 = {d}^ {d}^*"])))
@@ -101,6 +112,8 @@ def undefined_globals():
 
 def run(ctx):
     rng, quick = ctx.rng, ctx.tier == "quick"
+    from common import replay_recorded_findings
+    replay_recorded_findings(ctx, ["c16_huge_length"])
     res = prove(ctx)
     if ctx.gen.get("gen_globals"):
         res["ok"] = False
@@ -129,8 +142,11 @@ def run(ctx):
     ctx.cov["rule"] = ("static: every LOAD_GLOBAL / module-level LOAD_NAME of every code object of the package (theorem over the "
                        "regenerated table); dynamic: single-fault corruptions of generated valid documents at random positions "
                        "and token-level multi-fault mutations, run against the implementation; non-trivial = distinct documents")
-    ctx.cov["partial"] = ["reader_no_fault_full: the reader model never returns an interpreter-level fault "
-                          "(the Gallina reader model is not built yet; this clause is explored on the implementation, not proved)"]
+    ctx.cov["partial"] = ["grammar_shape_full: every token tree the PEG interpreter returns satisfies line_okb (checked at run "
+                          "time on every correspondence document of C14 through the BadShape outcome, not proved)",
+                          "reader_declared_only_full: the model-level outcome kinds OutOfFuel / BadRequest / Unmodelled are not "
+                          "excluded by a theorem (they never occurred in any correspondence run)",
+                          "lengths above sys.maxsize are outside the reader model (recorded finding c16_huge_length)"]
     found = []
     for f in out["failures"][:10]:
         found.append({"key": {"kind": f["case"]["kind"], "what": f["what"].split(":")[0]}, "input": f["case"], "what": f["what"],
